@@ -369,6 +369,16 @@ func basePlans(tier string) []mc.Plan {
 			}
 		}
 	}
+	// a writer buffer smaller than a frame: the send parks in the write issued while the frame is
+	// being buffered, not in the flush
+	for _, soft := range []bool{false, true} {
+		for _, ops := range [][]string{{"invoke"}, {"send"}, {"send", "recv"}, {"send", "send2"}, {"closesend"}} {
+			for _, v := range []string{"q", "r"} {
+				cfg := wl.Config{Soft: soft, Pipe: tr.Options{Cap: -1}, WriterBuf: 8}
+				ps = append(ps, mc.Plan{Scen: scenario(cfg, spec{stalled: true, ops: ops, variant: v}), Bounds: []int{0, 1}})
+			}
+		}
+	}
 	for _, soft := range []bool{false, true} {
 		for _, h := range []string{"silent", "echo"} {
 			for _, ops := range [][]string{{"invoke"}, {"recv"}, {"send", "recv"}} {
